@@ -155,13 +155,14 @@ func (node *PFCPNode) NewPFCPConn(lAddr, rAddr string, buf []byte) *PFCPConn {
 
 	p.setLocalNodeID(node.upf.nodeID)
 
+	// Update map of connections. This precedes the handling of the first message:
+	// if that message ends the connection, the node removes the entry again.
+	node.pConns.Store(rAddr, p)
+
 	if buf != nil {
 		// TODO: Check if the first msg is Association Setup Request
 		p.HandlePFCPMsg(buf)
 	}
-
-	// Update map of connections
-	node.pConns.Store(rAddr, p)
 
 	go p.Serve()
 
